@@ -7,8 +7,12 @@
    TypeError. Without the rendering proviso the truth table can change: dedup_truth_refuted is the
    known finding recorded in known_findings.txt. Operand order: at every node the renderings of the
    operands kept are the renderings of the (deduplicated) operands in the order of their first
-   occurrence, each once; a node left with one operand is replaced by it. *)
-Require Import Model.Base Model.Expr Model.Simplify Model.Licensing Proofs.Dedup Proofs.DedupOrder.
+   occurrence, each once; a node left with one operand is replaced by it. Nothing else goes: every
+   rendering among the operands given is the rendering of a kept operand (every distinct
+   alternative survives) and none is kept twice. combine_expressions on parsed inputs returns a
+   sole input as it is, joins all inputs in the given order when duplicates are to be kept, and
+   otherwise joins uniq_by_str of them (or returns the one left). *)
+Require Import Model.Base Model.Expr Model.Simplify Model.Licensing Proofs.Dedup Proofs.DedupOrder Proofs.DedupKeeps.
 
 Theorem C09_dedup_total : forall e, wf e = true -> exists e', dedup e = Ok e' /\ deduped e'.
 Proof. exact dedup_total. Qed.
@@ -50,3 +54,31 @@ Theorem C09_node_order : forall o xs e', dedup (mk o xs) = Ok e' ->
              (uniq_by_str ys = [e'] \/ e' = mk o (uniq_by_str ys)).
 Proof. exact dedup_node_order. Qed.
 Print Assumptions C09_node_order.
+
+Theorem C09_every_distinct_alternative_is_kept : forall xs x,
+  In x xs -> exists y, In y (uniq_by_str xs) /\ render y = render x.
+Proof. exact uniq_keeps_every_rendering. Qed.
+Print Assumptions C09_every_distinct_alternative_is_kept.
+
+Theorem C09_no_rendering_kept_twice : forall xs, NoDup (map render (uniq_by_str xs)).
+Proof. exact uniq_no_repeated_rendering. Qed.
+Print Assumptions C09_no_rendering_kept_twice.
+
+Theorem C09_combine_sole_input : forall x o u, combine_parsed [x] o u = Ok (Some x).
+Proof. exact combine_sole_input. Qed.
+Print Assumptions C09_combine_sole_input.
+
+Theorem C09_combine_keeps_duplicates_when_asked : forall x y zs o,
+  combine_parsed (x :: y :: zs) o false =
+  omap Some (match o with OpAnd => mk_and (x :: y :: zs) | OpOr => mk_or (x :: y :: zs) end).
+Proof. exact combine_keeps_duplicates_when_asked. Qed.
+Print Assumptions C09_combine_keeps_duplicates_when_asked.
+
+Theorem C09_combine_unique_rule : forall xs o, xs <> [] ->
+  combine_parsed xs o true =
+  match uniq_by_str xs with
+  | [y] => Ok (Some y)
+  | ys => omap Some (match o with OpAnd => mk_and ys | OpOr => mk_or ys end)
+  end.
+Proof. exact combine_unique_rule. Qed.
+Print Assumptions C09_combine_unique_rule.
